@@ -926,12 +926,51 @@ def check_pareto_history(ctx: Ctx) -> None:
     ctx.ob("4.7-pareto-history", con, bool(sel_ok), "objectives and designs of the front are both selected with the result of the filter", node=(rets or [f])[0], stmt="same selection for objectives and designs")
 
 
+def check_one_tolerances_object(ctx: Ctx) -> None:
+    """4.8 the tolerances the problem exposes are the ones its constraints (and so its history) decide feasibility
+    with: ONE object, created by the problem's constructor, handed to the constraints, edited in place ever after.
+    Binding a new object to the problem (a reload that "validates" the saved values, a setter) leaves the constraints
+    with the old one: the reported optimum is then selected under tolerances nobody asked for."""
+    OPB = "algos/optimization_problem.py"
+    cls = ctx.index.cls(OPB, "OptimizationProblem")
+    mangled = ("__tolerances", "_OptimizationProblem__tolerances")
+    binds = []
+    for mname, m in sorted(cls.methods.items()):
+        for st in walk_body(m):
+            tgts = st.targets if isinstance(st, ast.Assign) else [st.target] if isinstance(st, (ast.AnnAssign, ast.AugAssign)) else []
+            for t in tgts:
+                for sub in ast.walk(t):
+                    if isinstance(sub, ast.Attribute) and sub.attr in mangled and isinstance(sub.ctx, ast.Store):
+                        binds.append((mname, st))
+    init_binds = [b for b in binds if b[0] == "__init__"]
+    others = [b for b in binds if b[0] != "__init__"]
+    con = cname(OPB, "OptimizationProblem", (others or init_binds or [("__init__", None)])[0][0])
+    ctx.ob("4.8-one-tolerances-object", con, len(init_binds) == 1 and not others, "the tolerances object of a problem is bound once, in the constructor; " + (f"`{norm_stmt(others[0][1], 70)}` in {others[0][0]} binds another one, which the constraints (created with the first) never see" if others else "exactly one binding expected in __init__"), node=(others or init_binds or [(None, cls.node)])[0][1], stmt="__tolerances bound only in __init__")
+    # ... and it is the object the constraints are created with
+    init = cls.methods["__init__"]
+    ctor = [c for c in walk_body(init) if isinstance(c, ast.Call) and dotted(c.func) == "Constraints"]
+    # directly or through the read-only property that returns it
+    prop = cls.methods.get("tolerances")
+    prets = [s_ for s_ in stmts_of(prop) if isinstance(s_, ast.Return) and s_.value is not None] if prop is not None else []
+    through = {"tolerances"} if len(prets) == 1 and isinstance(prets[0].value, ast.Attribute) and prets[0].value.attr in mangled and dotted(prets[0].value.value) == "self" else set()
+    ok = len(ctor) == 1 and any(isinstance(a, ast.Attribute) and (a.attr in mangled or a.attr in through) and dotted(a.value) == "self" for a in [*ctor[0].args, *[k.value for k in ctor[0].keywords]])
+    if ok and init_binds:
+        icfg = cfg_of(init)
+        ok = icfg.dominates(icfg.node_of(init_binds[0][1]), icfg.node_of(ctor[0]))
+    ctx.ob("4.8-one-tolerances-object", cname(OPB, "OptimizationProblem", "__init__"), bool(ok), "the constraints are created with the problem's own tolerances object (self.__tolerances, bound before)", node=(ctor or [init])[0], stmt="Constraints(design_space, self.__tolerances)")
+    # no setter for the public name
+    setters = [m for n_, m in cls.methods.items() if n_ == "tolerances" and any(isinstance(d, ast.Attribute) and d.attr == "setter" for d in m.decorator_list)]
+    has_setter = bool(setters) or any(isinstance(st, ast.FunctionDef) and st.name == "tolerances" and any(isinstance(d, ast.Attribute) and d.attr == "setter" for d in st.decorator_list) for st in cls.node.body)
+    ctx.ob("4.8-one-tolerances-object", cname(OPB, "OptimizationProblem", "tolerances"), not has_setter, "`tolerances` is read-only: the object is shared with the constraints and must be edited in place", node=cls.node, stmt="no setter for tolerances")
+
+
 def run(ctx: Ctx) -> None:
     check_pareto_history(ctx)
     check_optimum(ctx)
     check_best_infeasible(ctx)
     check_feasible_points(ctx)
     check_tolerances(ctx)
+    check_one_tolerances_object(ctx)
     check_result(ctx)
     check_pareto(ctx)
     # last_point: all fields from one x_last
@@ -960,6 +999,8 @@ def run(ctx: Ctx) -> None:
 
 # ---------------------------------------------------------------------------
 WITNESSES = [
+    {"name": "reload-binds-new-tolerances", "file": "algos/optimization_problem.py", "old": "        self.__tolerances = ConstraintTolerances()\n", "new": "        self.__tolerances = ConstraintTolerances()\n        self.__tolerances = ConstraintTolerances()\n", "expect": "4.8"},
+    {"name": "constraints-get-their-own-tolerances", "file": "algos/optimization_problem.py", "old": "        self.__constraints = Constraints(design_space, self.tolerances)", "new": "        self.__constraints = Constraints(design_space, ConstraintTolerances())", "expect": "4.8"},
     {"name": "seeded-C04-10", "file": "algos/pareto/pareto_front.py", "old": "        feasibility = zeros(n_iter)\n\n        for iteration, item in enumerate(problem.database.items()):\n            x_vect, out_val = item\n            dv_history[iteration] = x_vect.unwrap()\n            if problem.objective.name in out_val:\n                obj_history[iteration] = array(out_val[problem.objective.name])\n                feasibility[iteration] = problem.constraints.is_point_feasible(out_val)\n", "new": "        feasibility = zeros(n_iter)\n        # Report the objectives with their original sign when requested.\n        if problem.minimize_objective or problem.use_standardized_objective:\n            sign = 1.0\n        else:\n            sign = -1.0\n\n        for iteration, item in enumerate(problem.database.items()):\n            x_vect, out_val = item\n            dv_history[iteration] = x_vect.unwrap()\n            if problem.objective.name in out_val:\n                obj_history[iteration] = sign * array(out_val[problem.objective.name])\n                feasibility[iteration] = problem.constraints.is_point_feasible(out_val)\n", "expect": "4.7", "note": "ParetoFront restores the original objective sign before the non-dominated filter"},
     {"name": "seeded-C04-9", "file": "algos/optimization_history.py", "old": "        c_opt = {}\n        c_opt_grad = {}\n        obj_name = self.objective_name\n        for i, output_values in enumerate(feas_f):\n            obj_value = output_values.get(obj_name)\n            if obj_value is None:\n                continue\n\n            if not isinstance(obj_value, Real) and obj_value.size > 1:\n                obj_value = norm(obj_value)\n\n            if obj_value < f_opt:\n                f_opt = obj_value\n                x_opt = feas_x[i]\n                for constraint in constraints:\n                    c_name = constraint.name\n                    c_opt[c_name] = output_values.get(c_name)\n                    c_key = Database.get_gradient_name(c_name)\n                    c_opt_grad[constraint.name] = output_values.get(c_key)\n\n", "new": "        c_opt = {}\n        c_opt_grad = dict.fromkeys(constraints.get_names())\n        obj_name = self.objective_name\n        for i, output_values in enumerate(feas_f):\n            obj_value = output_values.get(obj_name)\n            if obj_value is None:\n                continue\n\n            if not isinstance(obj_value, Real) and obj_value.size > 1:\n                obj_value = norm(obj_value)\n\n            if obj_value < f_opt:\n                f_opt = obj_value\n                x_opt = feas_x[i]\n                for constraint in constraints:\n                    c_name = constraint.name\n                    c_opt[c_name] = output_values.get(c_name)\n                    c_key = Database.get_gradient_name(c_name)\n                    if c_key in output_values:\n                        c_opt_grad[c_name] = output_values[c_key]\n\n", "expect": "4.1", "note": "optimum keeps a stale constraint gradient when the best feasible point has none "},
     {"name": "x_opt-outside-selection", "file": OH, "old": "            if obj_value < f_opt:\n                f_opt = obj_value\n                x_opt = feas_x[i]\n", "new": "            x_opt = feas_x[i]\n            if obj_value < f_opt:\n                f_opt = obj_value\n", "expect": "4.1"},
